@@ -1,21 +1,47 @@
 ---------------------------- MODULE Trace_Resize ----------------------------
 (* C08 main clause, one line per resize2fs run (cases read from resize/main.c):
-     rc = 0 and "is now N blocks long"  =>  the result is consistent (e2fsck -fn = 0; independent oracle when evaluated),
-                                            has exactly N blocks, and every file is unchanged (tree_equal; -1 = not evaluated)
+     rc = 0 and "is now N blocks long"  =>  the result is consistent (e2fsck -fn = 0 and Ext4Abs!Consistent on the independent reader's
+                                            projection), has exactly N blocks, and every file is unchanged (Ext4Abs!TreeEq of the
+                                            projections before / after; consistent / tree_equal: 1 holds, 0 fails, -1 the reader could
+                                            not judge the image -- unknown, never a verdict)
      rc = 0 and "Nothing to do" / "already"  =>  filesystem unchanged
      rc # 0 (refused or aborted)  =>  filesystem unchanged, or the error flag is set on disk (aborted after the first modification)
    "unchanged" = no byte outside the primary superblock differs and no superblock field other than write time /
-   kbytes written / checksum differs (computed by the harness from the two images).                                  *)
-EXTENDS Naturals, Sequences, TLC, Json, IOUtils
-VARIABLE l
+   kbytes written / checksum differs (computed by the harness from the two images).
+
+   Universe guard (ResizeOps!Marks, the boundary catalogue of Resize.tla):
+     {"e":"guard", cat, f, t}     an image built for catalogue element `cat`, BEFORE resize2fs runs: the facts f of the image (from the
+                                  independent reader) and the request t must exercise that boundary, else BADSHAPE (the check is broken)
+     {"e":"resize", ..., cat, f, t, moved}   t now carries the size resize2fs reported; a run that SUCCEEDED on an image whose facts
+                                  exercise `cat` realises the element; `moved` = groups (number + 1) whose inode table changed place:
+                                  every table ResizeOps!MustMoveIt predicts must be among them, else BADPRED (the specification of the
+                                  table layout does not describe this image: the check is broken, not the tool)
+     {"e":"end"}                  every element of CatalogueNames has been realised, else MISSING                                    *)
+EXTENDS ResizeOps, Json, IOUtils
+VARIABLES l, seen
 Tr == ndJsonDeserialize(IOEnv.TRACE)
-Ok(r) == IF r.rc = 0 /\ r.reported > 0
+Success(r) == r.rc = 0 /\ r.reported > 0
+Ok(r) == IF Success(r)
             THEN r.fsck = 0 /\ r.consistent # 0 /\ r.tree_equal # 0 /\ r.new_blocks = r.reported
          ELSE IF r.rc = 0 THEN r.unchanged = 1
          ELSE r.unchanged = 1 \/ r.errflag = 1
+ShapeOk(r) == r.cat = "" \/ r.cat \in Marks(r.f, r.t)
+Rng(s) == {s[i] : i \in DOMAIN s}
+PredOk(r) == (Success(r) /\ r.hasf = 1) => MustMoveIt(r.f, r.t) \subseteq Rng(r.moved)
+Holds(p) == p = TRUE
 TLine == /\ l <= Len(Tr) /\ Tr[l].e = "resize"
          /\ (IF ~Ok(Tr[l]) THEN PrintT(<<"BADLINE", l>>) ELSE TRUE)
+         /\ (IF Tr[l].hasf = 1 /\ ~PredOk(Tr[l]) THEN PrintT(<<"BADPRED", l>>) ELSE TRUE)
+         /\ (IF Tr[l].hasf = 1 /\ Success(Tr[l]) THEN PrintT(<<"MARKS", l, Marks(Tr[l].f, Tr[l].t)>>) ELSE TRUE)
+         /\ seen' = (IF Tr[l].hasf = 1 /\ Tr[l].cat # "" /\ Success(Tr[l]) /\ Holds(ShapeOk(Tr[l])) /\ Tr[l].consistent # -1 /\ Tr[l].tree_equal # -1
+                        THEN seen \cup {Tr[l].cat} ELSE seen)
          /\ l' = l + 1
-TraceSpec == l = 1 /\ [][TLine]_l
+TGuard == /\ l <= Len(Tr) /\ Tr[l].e = "guard"
+          /\ (IF ~ShapeOk(Tr[l]) THEN PrintT(<<"BADSHAPE", l, Tr[l].cat>>) ELSE TRUE)
+          /\ l' = l + 1 /\ UNCHANGED seen
+TEnd == /\ l <= Len(Tr) /\ Tr[l].e = "end"
+        /\ (IF CatalogueNames \subseteq seen THEN TRUE ELSE PrintT(<<"MISSING", CatalogueNames \ seen>>))
+        /\ l' = l + 1 /\ UNCHANGED seen
+TraceSpec == l = 1 /\ seen = {} /\ [][TLine \/ TGuard \/ TEnd]_<<l, seen>>
 TraceAccepted == TLCGet("stats").diameter - 1 = Len(Tr)
 =============================================================================
